@@ -22,6 +22,7 @@ import (
 type progCase struct {
 	Programs []*ref.Node `json:"programs"`
 	NoMap    bool        `json:"nomap,omitempty"` // the runner never gets a data map: locals live in a map it creates itself
+	Again    bool        `json:"again,omitempty"` // the caller hands its (same) map to SetThis again before every program after the first
 }
 
 func c07Spec() map[string]spec.V {
@@ -64,6 +65,9 @@ func checkProgs(c progCase) (msg string, unspec bool) {
 	}
 	r.SetThis(data)
 	for pi, prog := range c.Programs {
+		if c.Again && pi > 0 {
+			r.SetThis(data) // the same map, locals included: it carries them
+		}
 		text := prog.Text()
 		p := obs.Parse([]byte(text))
 		if !p.OK() {
@@ -315,6 +319,7 @@ func TestC07Model(t *testing.T) {
 			texts = append(texts, p.Text())
 		}
 		c.NoMap = rapid.IntRange(0, 3).Draw(rt, "nomap") == 0
+		c.Again = !c.NoMap && rapid.IntRange(0, 2).Draw(rt, "again") == 0
 		msg, unspec := checkProgs(c)
 		if unspec {
 			run.Class("unspecified-skipped")
